@@ -19,7 +19,7 @@ args=(-work "$work" -repo "$REPO" -modcache "$MODCACHE")
 [ "$NOSTMT" = 1 ] && args+=(-nostmt)
 [ -n "$STMTFUNCS" ] && args+=(-stmtfuncs "$STMTFUNCS")
 for f in "${INSTR[@]}"; do f=${f//@MODCACHE@/$MODCACHE}; args+=(-instr "$f"); done
-for r in "${EXTRA_REPLACE[@]}"; do args+=(-replace "$r"); done
+for r in "${EXTRA_REPLACE[@]}"; do r=${r//@MODCACHE@/$MODCACHE}; args+=(-replace "$r"); done
 /verif/.bin/vinstr "${args[@]}" || { echo "ENGINE-ERROR: instrumentation failed"; exit 2; }
 bin=/verif/.bin/$id
 (cd /verif/h && go build -tags verif -overlay "$work/overlay.json" -o "$bin" ./$(basename $dir)) > "$work/build.log" 2>&1
